@@ -1,4 +1,5 @@
 import Morlock.Proofs.ConcIter
+import Morlock.Props.C15Limits
 /-!
 # C15 — iterative deepening (`pkg/search/searchctl/iterative.go`) under every interleaving, and the
 arithmetic of `TimeControl.Limits`
@@ -100,34 +101,20 @@ theorem cancelled_only_after_quit (cfg : Cfg) (n : Nat) (sched : List Act)
     (run cfg (init n) sched).quit = true ∨ (run cfg (init n) sched).spc.afterCancel = true :=
   (iterInv_run cfg n sched).cancelOk hc
 
-/-! ## `TimeControl.Limits` -/
+/-! ## `TimeControl.Limits`
 
-/-- **limits.** For `0 ≤ remaining < 2^62` and `0 ≤ moves < 2^31` (no `int64` overflow: the largest intermediate,
-`2 * (moves + 1)`, is below `2^33`, and `3 * soft ≤ remaining`), the soft and hard limits satisfy
-`0 ≤ soft ≤ hard ≤ remaining`. -/
-theorem limits_ordered (remaining moves : Int) (hr0 : 0 ≤ remaining) (_hr1 : remaining < 2 ^ 62)
-    (hm0 : 0 ≤ moves) (_hm1 : moves < 2 ^ 31) :
-    0 ≤ (limits remaining moves).1 ∧ (limits remaining moves).1 ≤ (limits remaining moves).2 ∧
-    (limits remaining moves).2 ≤ remaining := by
-  simp only [limits]
-  -- the divisor `2 * m` is at least 4
-  have hm : (4 : Int) ≤ 2 * (if moves > 0 then moves + 1 else 40) := by split <;> omega
-  generalize 2 * (if moves > 0 then moves + 1 else 40) = k at hm
-  have hk : 0 ≤ k := by omega
-  rw [Int.tdiv_eq_ediv_of_nonneg hr0]
-  have hq0 : 0 ≤ remaining / k := Int.ediv_nonneg hr0 hk
-  have hmul : remaining / k * k ≤ remaining := Int.ediv_mul_le remaining (by omega)
-  have h4 : remaining / k * 4 ≤ remaining / k * k := Int.mul_le_mul_of_nonneg_left hm hq0
-  refine ⟨hq0, by omega, by omega⟩
+The arithmetic of the time control is `Model.limits` (the transcription the `limits` stream ties to the code, every
+operation in wrapped `int64`); its theorems are in `Props/C15Limits.lean`: `hard_le_remaining` (for a clock
+`0 ≤ remaining < 2^62` and EVERY `int64` moves-to-go: `0 ≤ soft ≤ hard ≤ remaining`) and `divisor_ok` (no division of
+`Limits` can panic). Restated here for the property. -/
 
-/-- the no-overflow side conditions are what they are claimed to be -/
-theorem limits_no_overflow (remaining moves : Int) (hr0 : 0 ≤ remaining) (hr1 : remaining < 2 ^ 62)
-    (hm0 : 0 ≤ moves) (hm1 : moves < 2 ^ 31) :
-    2 * (if moves > 0 then moves + 1 else 40) < 2 ^ 63 ∧ (limits remaining moves).2 < 2 ^ 63 := by
-  have := limits_ordered remaining moves hr0 hr1 hm0 hm1
-  constructor
-  · split <;> omega
-  · omega
+/-- **limits.** `0 ≤ soft ≤ hard ≤ remaining` for every clock that has not run out and every `int64` moves-to-go. -/
+theorem limits_ordered (remaining moves : Int) (hr0 : 0 ≤ remaining) (hr1 : remaining < 4611686018427387904)
+    (hm0 : -9223372036854775808 ≤ moves) (hm1 : moves < 9223372036854775808) :
+    0 ≤ (Morlock.Model.limits remaining moves).1 ∧
+    (Morlock.Model.limits remaining moves).1 ≤ (Morlock.Model.limits remaining moves).2 ∧
+    (Morlock.Model.limits remaining moves).2 ≤ remaining :=
+  Morlock.Props.C15Limits.hard_le_remaining remaining moves hr0 hr1 hm0 hm1
 
 /-! ## the hypotheses are satisfiable: small concrete systems -/
 
@@ -156,6 +143,6 @@ example :
     s.halts = [.done 0 ⟨2, 20⟩, .done 2 ⟨2, 20⟩] ∧ s.sent = [⟨1, 10⟩, ⟨2, 20⟩] ∧ s.spc = .exited := by
   decide
 
-example : limits 60000 0 = (750, 2250) ∧ limits 60000 9 = (3000, 9000) := by decide
+example : Morlock.Model.limits 60000 0 = (750, 2250) ∧ Morlock.Model.limits 60000 9 = (3000, 9000) := by decide
 
 end Morlock.Props.C15
